@@ -57,6 +57,9 @@ DIRECTED = [
     "def f(a, *rest, k=3, **kw):\n    try:\n        R(1)\n    except Boom as e:\n        pass\n    return a\n",
     "def f(a):\n    for i, (j, k) in []:\n        pass\n    else:\n        z = 1\n    while C(1):\n        y = (w := 2)\n    with CM(2) as u:\n        pass\n    return a\n",
     "def f(a):\n    b: int\n    c: int = a\n    c += GLOB1\n    O.a = c\n    return H(1, c)\n",
+    # a parameter re-bound by an import / a def / a class / a loop / a with / a handler stays a parameter
+    "def f(a, math=None, sep=None):\n    if math is None:\n        import math\n    from os import sep\n    import os.path as a\n    return (a, math, sep)\n",
+    "def f(a, b, c, d, e=None):\n    def a():\n        pass\n    class b:\n        pass\n    for c in []:\n        pass\n    with CM(1) as d:\n        pass\n    try:\n        R(2)\n    except Boom as e:\n        pass\n    return a\n",
 ]
 
 
